@@ -1,3 +1,411 @@
-import PbVerif.Model.Registry
+import PbVerif.Lemmas.RegistryStep
+/-
+C33 — Registries behave like a conflict-checking name table.
+
+`Model.Registry.Files` / `Types` mirror the maps of reflect/protoregistry/registry.go (`descsByName`,
+`filesByPath`, `numFiles`; `typesByName`, `extensionsByMessage`, counters) with the code's order of
+checks and insertions; `Model.Registry.Spec` is the abstract name table: the list `a` of accepted files
+(resp. types), from which the set of declaration names `declNames a`, of package names `pkgNames a`,
+of paths `paths a` and the extension table `extsOf a m` are derived.
+
+A history is a list of API calls (`FOp` / `TOp`); all theorems hold for every history (no bound on
+length, number of files, nesting depth).  The only hypothesis on a registered file is `FileD.wf`:
+full names are unique inside the file — what `protodesc.NewFile` enforces for every descriptor that
+exists (the harness checks `wf` on each file protodesc accepts).
+-/
+open Model.Registry
 namespace C33
+
+/-- every file handed to RegisterFile in the history is a well-formed descriptor -/
+def OpsWF (ops : List FOp) : Prop := ∀ f, FOp.register f ∈ ops → f.wf = true
+
+/-! ## 1. every result of every history matches the abstract name table -/
+
+/-- Files: the answers of the map-based model to any history are the answers of the name table. -/
+theorem files_refine (ops : List FOp) (h : OpsWF ops) :
+    (Files.run {} ops).2 = (Spec.run [] ops).2 :=
+  (filesRun_refines ops finv_init Spec.valid_nil h).1
+
+/-- Types: the same, for RegisterMessage/Enum/Extension, Find*, Num*, Range*. -/
+theorem types_refine (ops : List TOp) : (Types.run {} ops).2 = (Spec.runT [] ops).2 :=
+  (typesRun_refines ops tinv_init).1
+
+/-- `r` is the concrete state and `a` the abstract state after some history of well-formed files -/
+def Reach (r : Files) (a : List FileD) : Prop :=
+  ∃ ops, OpsWF ops ∧ (Files.run {} ops).1 = r ∧ (Spec.run [] ops).1 = a
+
+def TReach (r : Types) (a : List TypeD) : Prop :=
+  ∃ ops, (Types.run {} ops).1 = r ∧ (Spec.runT [] ops).1 = a
+
+theorem reach_inv {r : Files} {a : List FileD} (h : Reach r a) : FInv r a ∧ Spec.Valid a := by
+  obtain ⟨ops, wf, rfl, rfl⟩ := h
+  exact (filesRun_refines ops finv_init Spec.valid_nil wf).2
+
+theorem treach_inv {r : Types} {a : List TypeD} (h : TReach r a) : TInv r a := by
+  obtain ⟨ops, rfl, rfl⟩ := h
+  exact (typesRun_refines ops tinv_init).2
+
+/-- the abstract state is exactly the list of files whose RegisterFile call answered "ok", in order -/
+def accepted : List FOp → List FRes → List FileD
+  | .register f :: ops, .regOk :: rs => f :: accepted ops rs
+  | _ :: ops, _ :: rs => accepted ops rs
+  | _, _ => []
+
+theorem state_eq_accepted (ops : List FOp) : ∀ a : List FileD,
+    (Spec.run a ops).1 = a ++ accepted ops (Spec.run a ops).2 := by
+  induction ops with
+  | nil => intro a; simp [Spec.run, accepted]
+  | cons op ops ih =>
+    intro a
+    simp only [Spec.run]
+    rw [ih]
+    cases op with
+    | register f =>
+      simp only [Spec.step]
+      rcases Spec.register_cases a f with ⟨e1, e2⟩ | ⟨e1, e2⟩
+      · rw [e1, e2]; simp [accepted]
+      · rw [e1]
+        cases h : (Spec.register a f).2 <;> first | exact absurd h e2 | simp [accepted]
+    | find n => simp only [Spec.step]; cases Spec.find a n <;> simp [accepted]
+    | findPath p => simp only [Spec.step, Spec.findPath]; cases a.find? _ <;> simp [accepted]
+    | numFiles => simp [Spec.step, accepted]
+    | rangeFiles => simp [Spec.step, accepted]
+    | numByPkg n => simp [Spec.step, accepted]
+    | rangeByPkg n => simp [Spec.step, accepted]
+
+/-! ## 2. registration succeeds iff it introduces no conflict -/
+
+/-- RegisterFile succeeds iff the file's path is new, no prefix of its package is a registered
+declaration, and none of its top-level names (enum values included) is a registered declaration or
+a package name. -/
+theorem register_ok_iff {r : Files} {a : List FileD} (h : Reach r a) (f : FileD) (wf : f.wf = true) :
+    (r.register f).2 = .regOk ↔
+      f.path ∉ Spec.paths a ∧
+      (∀ p ∈ prefixesDesc f.pkg, p ∉ Spec.declNames a) ∧
+      (∀ k ∈ (topEntries f).map (·.1), k ∉ Spec.declNames a ∧ k ∉ Spec.pkgNames a) := by
+  obtain ⟨inv, _⟩ := reach_inv h
+  rw [(register_refines f inv wf).1, Spec.register_ok_iff]
+  simp only [Spec.NoConflict, Spec.PathConflict, Spec.PkgConflict, Spec.NameConflict, not_exists, not_and,
+    not_or]
+
+/-- the error class follows the order of the three checks; the answer is never the panic of the
+`.(*packageDescriptor)` type assertion -/
+theorem register_result {r : Files} {a : List FileD} (h : Reach r a) (f : FileD) (wf : f.wf = true) :
+    (r.register f).2 = (Spec.register a f).2 ∧ (r.register f).2 ≠ .panic := by
+  obtain ⟨inv, _⟩ := reach_inv h
+  have e := (register_refines f inv wf).1
+  refine ⟨e, ?_⟩
+  rw [e]
+  unfold Spec.register
+  split
+  · simp
+  split
+  · simp
+  split <;> simp
+
+/-- Types: registration succeeds iff the name is new and (for an extension) the (message, number)
+slot is free. -/
+theorem registerT_ok_iff (a : List TypeD) (t : TypeD) :
+    (Spec.registerT a t).2 = .regOk ↔ ¬ Spec.ExtNumConflict a t ∧ ¬ Spec.TypeNameConflict a t := by
+  have hx : (t.kind = .extension ∧ t.number ∈ (Spec.extsOf a t.extendee).map (·.number)) ↔
+      Spec.ExtNumConflict a t := by
+    simp only [Spec.ExtNumConflict, Spec.extsOf, List.mem_map, List.mem_filter, decide_eq_true_eq]
+    constructor
+    · rintro ⟨h, t', ⟨h1, h2, h3⟩, h4⟩; exact ⟨h, t', h1, h2, h3, h4⟩
+    · rintro ⟨h, t', h1, h2, h3, h4⟩; exact ⟨h, t', ⟨h1, h2, h3⟩, h4⟩
+  unfold Spec.registerT Spec.TypeNameConflict
+  rw [← hx]
+  split
+  · rename_i c
+    exact ⟨fun h => (by cases h), fun h => absurd c h.1⟩
+  · rename_i c
+    split
+    · rename_i c2
+      exact ⟨fun h => (by cases h), fun h => absurd c2 h.2⟩
+    · rename_i c2
+      exact ⟨fun _ => ⟨c, c2⟩, fun _ => rfl⟩
+
+theorem typeStep_result {r : Types} {a : List TypeD} (h : TReach r a) (op : TOp) :
+    (r.step op).2 = (Spec.stepT a op).2 :=
+  (typesStep_refines (treach_inv h) op).1
+
+/-! ## 3. a failed registration changes nothing -/
+
+theorem register_ok_or_init (r : Files) (f : FileD) :
+    (r.register f).2 = .regOk ∨ (r.register f).1 = { r with descs := initDescs r.descs } := by
+  unfold Files.register
+  simp only
+  split
+  · exact Or.inr rfl
+  split
+  · exact Or.inr rfl
+  split
+  · exact Or.inr rfl
+  split
+  · exact Or.inl rfl
+  · exact Or.inr rfl
+
+theorem register_fail_state (r : Files) (f : FileD) (h : (r.register f).2 ≠ .regOk) :
+    (r.register f).1 = { r with descs := initDescs r.descs } :=
+  (register_ok_or_init r f).resolve_left h
+
+/-- a failed RegisterFile leaves the registry state untouched … -/
+theorem register_fail_unchanged {r : Files} {a : List FileD} (h : Reach r a) (f : FileD) (wf : f.wf = true)
+    (hf : (r.register f).2 ≠ .regOk) : (r.register f).1 = r := by
+  obtain ⟨inv, _⟩ := reach_inv h
+  rw [register_fail_state r f hf]
+  have hne : a ≠ [] := by
+    intro e
+    apply hf
+    rw [(register_refines f inv wf).1, Spec.register_ok_iff, e]
+    simp [Spec.NoConflict, Spec.PathConflict, Spec.PkgConflict, Spec.NameConflict, Spec.paths,
+      Spec.declNames, Spec.pkgNames]
+  rw [initDescs_of_ne_nil (inv.descs_ne_nil hne)]
+
+/-- … so every later lookup, count and range answers as if the call had not been made. -/
+theorem register_fail_later {r : Files} {a : List FileD} (h : Reach r a) (f : FileD) (wf : f.wf = true)
+    (hf : (r.register f).2 ≠ .regOk) (ops : List FOp) :
+    Files.run (r.register f).1 ops = Files.run r ops := by
+  rw [register_fail_unchanged h f wf hf]
+
+/-- Types: any call that does not answer "ok" leaves the state untouched (no hypothesis needed: the
+code inserts only after its last check). -/
+theorem typeStep_fail_unchanged (r : Types) (op : TOp) (hf : (r.step op).2 ≠ .regOk) :
+    (r.step op).1 = r := by
+  cases op with
+  | regMessage n =>
+    simp only [Types.step, Types.registerMessage] at hf ⊢
+    cases h : r.registerName _ <;> simp_all
+  | regEnum n =>
+    simp only [Types.step, Types.registerEnum] at hf ⊢
+    cases h : r.registerName _ <;> simp_all
+  | regExtension n e k =>
+    have : (r.registerExtension n e k).2 = .regOk ∨ (r.registerExtension n e k).1 = r := by
+      unfold Types.registerExtension
+      simp only
+      split
+      · exact Or.inr rfl
+      split
+      · exact Or.inr rfl
+      · exact Or.inl rfl
+    exact this.resolve_left hf
+  | _ => rfl
+
+/-! ## 4. every declaration of a registered file is found by its full name, and nothing else is -/
+
+/-- nested messages, fields, oneofs, enum values (in the scope enclosing their enum), extensions,
+services and methods: all of `FileD.decls`. -/
+theorem find_every_declaration {r : Files} {a : List FileD} (h : Reach r a) {g : FileD} (hg : g ∈ a)
+    {d : Desc} (hd : d ∈ g.decls) : r.find d.full = some d := by
+  obtain ⟨inv, v⟩ := reach_inv h
+  rcases inv.descs with ⟨_, e2⟩ | hD
+  · rw [e2] at hg; cases hg
+  · exact find_complete hD v hg hd
+
+theorem find_only_registered {r : Files} {a : List FileD} (h : Reach r a) {n : FullName} {d : Desc}
+    (hf : r.find n = some d) : d.full = n ∧ ∃ g ∈ a, d ∈ g.decls := by
+  obtain ⟨inv, v⟩ := reach_inv h
+  rw [find_refines inv v] at hf
+  have h1 := List.mem_of_find?_eq_some hf
+  have h2 := List.find?_some hf
+  simp only [decide_eq_true_eq] at h2
+  obtain ⟨g, hg, hd⟩ := List.mem_flatMap.mp h1
+  exact ⟨h2, g, hg, hd⟩
+
+/-- consequently the full names of all declarations of all registered files denote one descriptor each -/
+theorem declarations_unambiguous {r : Files} {a : List FileD} (h : Reach r a) {g g' : FileD}
+    (hg : g ∈ a) (hg' : g' ∈ a) {d d' : Desc} (hd : d ∈ g.decls) (hd' : d' ∈ g'.decls)
+    (e : d.full = d'.full) : d = d' := by
+  have h1 := find_every_declaration h hg hd
+  have h2 := find_every_declaration h hg' hd'
+  rw [e, h2] at h1
+  exact (Option.some.inj h1).symm
+
+/-- Types: a registered type is found by its full name under its own kind; other kinds report a
+wrong type; unregistered names are not found. -/
+theorem findKind_spec (a : List TypeD) (nd : (a.map (·.full)).Nodup) (k : TKind) (n : FullName) :
+    (∀ t ∈ a, t.full = n → Spec.findKind a k n = if t.kind = k then .found t else .wrongType) ∧
+    (n ∉ a.map (·.full) → Spec.findKind a k n = .notFound) := by
+  unfold Spec.findKind
+  constructor
+  · intro t ht hn
+    have : a.find? (fun t => t.full = n) = some t := by
+      cases hf : a.find? (fun t => t.full = n) with
+      | none =>
+        rw [List.find?_eq_none] at hf
+        exact absurd (by simpa using hn) (hf t ht)
+      | some t' =>
+        have h1 := List.mem_of_find?_eq_some hf
+        have h2 := List.find?_some hf
+        simp only [decide_eq_true_eq] at h2
+        have : (t'.full, t') = (t.full, t) → t' = t := fun e => (Prod.mk.inj e).2
+        congr 1
+        have nd' : ((a.map (fun t => (t.full, t))).map (·.1)).Nodup := by rw [List.map_map]; exact nd
+        have m1 : (n, t') ∈ a.map (fun t => (t.full, t)) := List.mem_map.mpr ⟨t', h1, by rw [h2]⟩
+        have m2 : (n, t) ∈ a.map (fun t => (t.full, t)) := List.mem_map.mpr ⟨t, ht, by rw [hn]⟩
+        exact nodup_keys_functional nd' m1 m2
+    rw [this]
+  · intro hn
+    rw [(find?_isSome_iff_mem_map a (·.full) n).mpr hn]
+
+/-- consistency of the abstract type table: names are unique, and so are the numbers of the
+extensions of each message -/
+def TValid (a : List TypeD) : Prop :=
+  (a.map (·.full)).Nodup ∧ ∀ m, ((Spec.extsOf a m).map (·.number)).Nodup
+
+theorem tvalid_registerT (a : List TypeD) (t : TypeD) (v : TValid a) : TValid (Spec.registerT a t).1 := by
+  unfold Spec.registerT
+  split
+  · exact v
+  split
+  · exact v
+  · rename_i c1 c2
+    refine ⟨?_, ?_⟩
+    · simp only [List.map_append, List.map_cons, List.map_nil]
+      rw [List.nodup_append]
+      refine ⟨v.1, by simp, ?_⟩
+      intro x hx y hy e
+      simp at hy; subst hy; subst e; exact c2 hx
+    · intro m
+      by_cases hm : t.kind = .extension ∧ t.extendee = m
+      · obtain ⟨hk, rfl⟩ := hm
+        rw [extsOf_append_self a t hk]
+        simp only [List.map_append, List.map_cons, List.map_nil]
+        rw [List.nodup_append]
+        refine ⟨v.2 _, by simp, ?_⟩
+        intro x hx y hy e
+        simp at hy; subst hy; subst e; exact c1 ⟨hk, hx⟩
+      · rw [extsOf_append_other a t m hm]; exact v.2 m
+
+theorem treach_valid {r : Types} {a : List TypeD} (h : TReach r a) : TValid a := by
+  obtain ⟨ops, _, rfl⟩ := h
+  suffices ∀ (ops : List TOp) (a : List TypeD), TValid a → TValid (Spec.runT a ops).1 from
+    this ops [] ⟨by simp, by intro m; simp [Spec.extsOf]⟩
+  intro ops
+  induction ops with
+  | nil => intro a v; exact v
+  | cons op ops ih =>
+    intro a v
+    simp only [Spec.runT]
+    apply ih
+    cases op <;> first | exact tvalid_registerT a _ v | exact v
+
+/-- Types, on the concrete model: registered types are found under their kind, by name … -/
+theorem types_find_registered {r : Types} {a : List TypeD} (h : TReach r a) {t : TypeD} (ht : t ∈ a)
+    (k : TKind) : r.findKind k t.full = if t.kind = k then .found t else .wrongType := by
+  have inv := treach_inv h
+  have : r.findKind k t.full = Spec.findKind a k t.full := by
+    simp only [Types.findKind, Spec.findKind, inv.byName, lookup_byName]
+  rw [this]
+  exact (findKind_spec a (treach_valid h).1 k t.full).1 t ht rfl
+
+theorem types_find_unregistered {r : Types} {a : List TypeD} (h : TReach r a) (k : TKind) {n : FullName}
+    (hn : n ∉ a.map (·.full)) : r.findKind k n = .notFound := by
+  have inv := treach_inv h
+  have : r.findKind k n = Spec.findKind a k n := by
+    simp only [Types.findKind, Spec.findKind, inv.byName, lookup_byName]
+  rw [this]
+  exact (findKind_spec a (treach_valid h).1 k n).2 hn
+
+/-- … and extensions by (message, number); free slots are not found. -/
+theorem types_find_by_number {r : Types} {a : List TypeD} (h : TReach r a) :
+    (∀ t ∈ a, t.kind = .extension → r.findExtensionByNumber t.extendee t.number = .found t) ∧
+    (∀ m k, k ∉ (Spec.extsOf a m).map (·.number) → r.findExtensionByNumber m k = .notFound) := by
+  have inv := treach_inv h
+  have v := treach_valid h
+  have hfind : ∀ m k, r.findExtensionByNumber m k =
+      match (Spec.extsOf a m).find? (fun t => t.number = k) with
+      | some t => .found t
+      | none => .notFound := by
+    intro m k
+    simp only [Types.findExtensionByNumber, inv.exts m, lookup_byNumber]
+    cases (Spec.extsOf a m).find? (fun t => t.number = k) <;> rfl
+  constructor
+  · intro t ht hk
+    rw [hfind]
+    have hmem : t ∈ Spec.extsOf a t.extendee := by
+      simp [Spec.extsOf, List.mem_filter, ht, hk]
+    have nd' : (((Spec.extsOf a t.extendee).map (fun t => (t.number, t))).map (·.1)).Nodup := by
+      rw [List.map_map]; exact v.2 _
+    cases hf : (Spec.extsOf a t.extendee).find? (fun t' => t'.number = t.number) with
+    | none =>
+      rw [List.find?_eq_none] at hf
+      exact absurd (by simp) (hf t hmem)
+    | some t' =>
+      have h1 := List.mem_of_find?_eq_some hf
+      have h2 := List.find?_some hf
+      simp only [decide_eq_true_eq] at h2
+      have m1 : (t.number, t') ∈ (Spec.extsOf a t.extendee).map (fun t => (t.number, t)) :=
+        List.mem_map.mpr ⟨t', h1, by rw [h2]⟩
+      have m2 : (t.number, t) ∈ (Spec.extsOf a t.extendee).map (fun t => (t.number, t)) :=
+        List.mem_map.mpr ⟨t, hmem, rfl⟩
+      rw [nodup_keys_functional nd' m1 m2]
+  · intro m k hk
+    rw [hfind, (find?_isSome_iff_mem_map (Spec.extsOf a m) (·.number) k).mpr hk]
+
+/-! ## 5. counts and ranges enumerate exactly the registered entries -/
+
+theorem files_counts {r : Files} {a : List FileD} (h : Reach r a) :
+    r.numFiles = a.length ∧ r.rangeFiles.Perm a ∧
+    (∀ n, r.rangeByPkg n = a.filter (fun f => f.pkg = n)) ∧
+    (∀ n, r.numByPkg n = (a.filter (fun f => f.pkg = n)).length) ∧
+    (∀ p, r.findPath p = Spec.findPath a p) ∧ (Spec.paths a).Nodup := by
+  obtain ⟨inv, v⟩ := reach_inv h
+  refine ⟨inv.num, by rw [rangeFiles_refines inv], rangeByPkg_refines inv v, ?_, findPath_refines inv, v.paths⟩
+  intro n; simp only [Files.numByPkg, rangeByPkg_refines inv v n]
+
+theorem types_counts {r : Types} {a : List TypeD} (h : TReach r a) :
+    r.numMessages = (a.filter (fun t => t.kind = .message)).length ∧
+    r.numEnums = (a.filter (fun t => t.kind = .enum)).length ∧
+    r.numExtensions = (a.filter (fun t => t.kind = .extension)).length ∧
+    (∀ k, (r.rangeKind k).Perm (a.filter (fun t => t.kind = k))) ∧
+    (∀ m, (r.rangeExtensionsByMessage m).Perm (Spec.extsOf a m)) ∧
+    (∀ m, ((alLookup m r.extensionsByMessage).getD []).length = (Spec.extsOf a m).length) := by
+  have inv := treach_inv h
+  refine ⟨inv.numM, inv.numE, inv.numX, ?_, ?_, ?_⟩
+  · intro k; simp [Types.rangeKind, inv.byName, List.map_map, Function.comp_def]
+  · intro m; simp [Types.rangeExtensionsByMessage, inv.exts m, List.map_map, Function.comp_def]
+  · intro m; simp [inv.exts m]
+
+/-! ## the hypotheses are satisfiable by non-trivial values -/
+
+/-- package a.b; enum E{V}; message M { enum K{k1}; message N { field f; oneof o }; extension x; field g };
+service S { method m } -/
+def exFile : FileD :=
+  { path := "p.proto", pkg := ["a", "b"], enums := [⟨"E", ["V"]⟩],
+    msgs := .cons (.mk "M" [⟨"K", ["k1"]⟩] (.cons (.mk "N" [] .nil [] ["f"] ["o"]) .nil)
+              [⟨"x", ["a", "b", "M"], 1⟩] ["g"] []) .nil,
+    exts := [], svcs := [⟨"S", ["m"]⟩] }
+
+/-- package a; message b — clashes with the package a.b -/
+def exFile2 : FileD :=
+  { path := "q.proto", pkg := ["a"], enums := [], msgs := .cons (.mk "b" [] .nil [] [] []) .nil, exts := [], svcs := [] }
+
+/-- package a.b.M — its package runs through the message a.b.M -/
+def exFile3 : FileD := { path := "r.proto", pkg := ["a", "b", "M"], enums := [], msgs := .nil, exts := [], svcs := [] }
+
+def exOps : List FOp :=
+  [.register exFile, .find ["a", "b", "M", "N", "o"], .find ["a", "b", "M", "k1"], .find ["a", "b", "M", "K", "k1"],
+   .find ["a", "b", "S", "m"], .register exFile2, .register exFile3, .register exFile, .numFiles, .numByPkg ["a", "b"]]
+
+example : OpsWF exOps := by
+  intro f hf
+  simp only [exOps, List.mem_cons, FOp.register.injEq, reduceCtorEq, List.not_mem_nil, or_false, false_or] at hf
+  rcases hf with rfl | rfl | rfl | rfl <;> rfl
+
+example : (Files.run {} exOps).2 =
+    [.regOk, .found ⟨.oneof, ["a", "b", "M", "N", "o"]⟩, .found ⟨.enumValue, ["a", "b", "M", "k1"]⟩, .notFound,
+     .found ⟨.method, ["a", "b", "S", "m"]⟩, .errName ["a", "b"], .errPkg ["a", "b", "M"], .errPath,
+     .num 1, .num 1] := by rfl
+
+example : Reach (Files.run {} exOps).1 [exFile] := ⟨exOps, by
+  intro f hf
+  simp only [exOps, List.mem_cons, FOp.register.injEq, reduceCtorEq, List.not_mem_nil, or_false, false_or] at hf
+  rcases hf with rfl | rfl | rfl | rfl <;> rfl, rfl, rfl⟩
+
+example : (Types.run {} [.regExtension ["x"] ["M"] 1, .regExtension ["y"] ["M"] 1, .regMessage ["x"],
+      .regMessage ["M"], .findEnum ["M"], .findExtensionByNumber ["M"] 1, .numExtensions]).2 =
+    [.regOk, .errExtNum, .errName, .regOk, .wrongType,
+     .found { kind := .extension, full := ["x"], extendee := ["M"], number := 1 }, .num 1] := by rfl
+
 end C33
